@@ -125,6 +125,9 @@ def solve_sat(
     for clause in clauses:
         for lit in clause:
             n_vars = max(n_vars, lit_var(lit))
+    for lit in assumptions:
+        # An assumption may name a variable that occurs in no clause: it is simply fixed
+        n_vars = max(n_vars, lit_var(lit))
 
     if n_vars == 0:
         return Result({}, 0, 0, 0)
